@@ -18,6 +18,8 @@ static const char *VNAME[6] = {"skinny64-64","skinny64-128","skinny64-192",
 
 typedef struct { int vi, bs, klen, dir; } C01Ctx;
 
+static int g_sched_changed;   /* set when a block function modified the schedule it takes as const */
+
 static int real_skinny(int bs, const uint8_t *key, int klen, int dir,
                        const uint8_t *in, uint8_t *out)
 {
@@ -27,7 +29,9 @@ static int real_skinny(int bs, const uint8_t *key, int klen, int dir,
         if (skinny128_set_key(&ks, key, (unsigned)klen) != 1) return 0;
         out_digest("skinny128-schedule", ks.schedule, ks.rounds * sizeof(ks.schedule[0]));
         verif_paint_stack();
-        if (dir) skinny128_ecb_decrypt(out, in, &ks); else skinny128_ecb_encrypt(out, in, &ks);
+        { Skinny128Key_t b4; memcpy(&b4, &ks, sizeof(ks));
+          if (dir) skinny128_ecb_decrypt(out, in, &ks); else skinny128_ecb_encrypt(out, in, &ks);
+          if (memcmp(&b4.schedule, &ks.schedule, ks.rounds * sizeof(ks.schedule[0])) != 0 || b4.rounds != ks.rounds) g_sched_changed = 1; }
         out_digest("skinny128-block", out, 16);
     } else {
         Skinny64Key_t ks;
@@ -35,7 +39,9 @@ static int real_skinny(int bs, const uint8_t *key, int klen, int dir,
         if (skinny64_set_key(&ks, key, (unsigned)klen) != 1) return 0;
         out_digest("skinny64-schedule", ks.schedule, ks.rounds * sizeof(ks.schedule[0]));
         verif_paint_stack();
-        if (dir) skinny64_ecb_decrypt(out, in, &ks); else skinny64_ecb_encrypt(out, in, &ks);
+        { Skinny64Key_t b4; memcpy(&b4, &ks, sizeof(ks));
+          if (dir) skinny64_ecb_decrypt(out, in, &ks); else skinny64_ecb_encrypt(out, in, &ks);
+          if (memcmp(&b4.schedule, &ks.schedule, ks.rounds * sizeof(ks.schedule[0])) != 0 || b4.rounds != ks.rounds) g_sched_changed = 1; }
         out_digest("skinny64-block", out, 8);
     }
     return 1;
@@ -56,6 +62,12 @@ static void c01_case(const uint8_t *buf, size_t m, void *arg)
         snprintf(cd, sizeof(cd), "c01 %d %d %s", c->vi, c->dir, hexs(buf, m));
         violation(sig, cd, "set_key returned 0 for a primary key size %d", c->klen);
         return;
+    }
+    if (g_sched_changed) {
+        g_sched_changed = 0;
+        snprintf(sig, sizeof(sig), "C01/%s/block-call-changed-schedule", VNAME[c->vi]);
+        snprintf(cd, sizeof(cd), "c01 %d %d %s", c->vi, c->dir, hexs(buf, m));
+        violation(sig, cd, "the key schedule (a const argument) was modified by the %s call", c->dir ? "decrypt" : "encrypt");
     }
     if (c->dir) ref_skinny_key_decrypt(c->bs, key, c->klen, blk, ref);
     else        ref_skinny_key_encrypt(c->bs, key, c->klen, blk, ref);
@@ -111,7 +123,7 @@ static void c02_case(const uint8_t *buf, size_t m, void *arg)
     const uint8_t *key = buf, *tweak = buf + 16, *blk = buf + 24;
     uint8_t real[8], ref[8];
     char sig[96], cd[200];
-    MantisKey_t ks;
+    MantisKey_t ks, ks_before;
     (void)m;
     ++g_cnt.evaluations;
     verif_paint_obj(&ks, sizeof(ks)); verif_paint_stack();
@@ -128,10 +140,16 @@ static void c02_case(const uint8_t *buf, size_t m, void *arg)
             return;
         }
         verif_paint_stack();
+        memcpy(&ks_before, &ks, sizeof(ks));
         mantis_ecb_crypt(real, blk, &ks);
     } else {
         verif_paint_stack();
+        memcpy(&ks_before, &ks, sizeof(ks));
         mantis_ecb_crypt_tweaked(real, blk, tweak, &ks);
+    }
+    if (memcmp(&ks_before, &ks, offsetof(MantisKey_t, rounds) + sizeof(unsigned)) != 0) {
+        snprintf(cd, sizeof(cd), "c02 %d %d %d %s", c->rounds, c->mode, c->path, hexs(buf, 32));
+        violation("C02/block-call-changed-schedule", cd, "the key schedule (a const argument) was modified by %s", c->path ? "mantis_ecb_crypt_tweaked" : "mantis_ecb_crypt");
     }
     out_digest("mantis-schedule", &ks, offsetof(MantisKey_t, rounds) + sizeof(unsigned));
     out_digest("mantis-block", real, 8);
